@@ -92,8 +92,55 @@ def mk_stub(n, sw, hw, f_hz):
     return t
 
 
+def mk_full(n=4, f_hz=125e6):
+    """The unmodified PacketTransmitter (real LinkCommandDetector and RawPacketTransmitter, 128-bit headers).  Traffic is
+    restricted to headers without payload (dw0[0:4] != DATA); data_sink is left idle.  Observed besides the module's own
+    outputs: packet_tx.generate / header / done and lc_detector.command / subtype (Python attributes of the submodules)."""
+    def build():
+        with _LOCK:
+            from amaranth.hdl import Fragment
+            import luna.gateware.usb.usb3.link.transmitter as T
+            made = {}
+            o_tx, o_det = T.RawPacketTransmitter, T.LinkCommandDetector
+            def spy_tx():
+                x = o_tx(); made["tx"] = x; return x
+            def spy_det():
+                x = o_det(); made["det"] = x; return x
+            T.RawPacketTransmitter, T.LinkCommandDetector = spy_tx, spy_det
+            try:
+                d = T.PacketTransmitter(buffer_count=n, ss_clock_frequency=f_hz)
+                frag = Fragment.get(d, None)
+            finally:
+                T.RawPacketTransmitter, T.LinkCommandDetector = o_tx, o_det
+            tx, det = made["tx"], made["det"]
+            qh = d.queue.header; th = tx.header
+            def fields(prefix, h):
+                return [(prefix + "dw0", h.dw0), (prefix + "dw1", h.dw1), (prefix + "dw2", h.dw2), (prefix + "crc16", h.crc16),
+                        (prefix + "seq", h.sequence_number), (prefix + "rsvd", h.dw3_reserved), (prefix + "hub", h.hub_depth),
+                        (prefix + "delayed", h.delayed), (prefix + "deferred", h.deferred), (prefix + "crc5", h.crc5)]
+            ins = ([("enable", d.enable), ("queue_valid", d.queue.valid)] + fields("q_", qh) +
+                   [("lrty_pending", d.lrty_pending), ("sink_valid", d.sink.valid), ("sink_data", d.sink.data),
+                    ("sink_ctrl", d.sink.ctrl), ("source_ready", d.source.ready)])
+            outs = ([("queue_ready", d.queue.ready), ("generate", tx.generate)] + fields("h_", th) +
+                    [("done", tx.done), ("retry_required", d.retry_required), ("retry_received", d.retry_received),
+                     ("recovery_required", d.recovery_required), ("bringup_complete", d.bringup_complete),
+                     ("lgo_received", d.lgo_received), ("lgo_target", d.lgo_target),
+                     ("credits_available", d.credits_available), ("packets_to_send", d.packets_to_send),
+                     ("link_command_received", d.link_command_received), ("det_command", det.command),
+                     ("det_subtype", det.subtype)])
+            return frag, ins, outs
+    t = SplitTarget(f"ptx_full_n{n}", build)
+    T_ = int(5e-3 * float(f_hz) + 1)
+    t.kind = "full"
+    t.params = dict(n=n, sw=3, hw=124, T=T_, tw=range_width(T_ + 1), pw=range_width(n), cw=range_width(n + 1))
+    return t
+
+
 def targets(tier):
-    return [mk_stub(2, 2, 1, 1000)]
+    ts = [mk_stub(1, 1, 1, 200), mk_full(4)]
+    if tier != "quick":
+        ts += [mk_stub(2, 2, 1, 200), mk_stub(4, 3, 2, 1000), mk_full(2, 2000.0)]
+    return ts
 
 
 def margs(t):
@@ -101,6 +148,30 @@ def margs(t):
     hh = p["hw"] + 4
     return dict(p, hh=hh, sp=p["hw"], dp=p["hw"] + 3,
                 full=f"{p['n']} {p['pw']} {p['cw']} {p['sw']} {p['T']} {p['tw']} {p['hw']} {p['hw'] + 3} {hh}")
+
+
+def stub_word(t, *, enable=1, qvalid=0, dw0=0, qseq=5, qdel=0, lrty=0, new=0, cmd=0, sub=0, finish=0):
+    hw = t.params["hw"]
+    x = enable | (qvalid << 1) | (dw0 << 2) | (qseq << (2 + hw)) | (qdel << (5 + hw)) | (lrty << (6 + hw))
+    x |= (new << (7 + hw)) | (cmd << (8 + hw)) | (sub << (12 + hw)) | (finish << (16 + hw))
+    return x
+
+
+def stub_alphabet(t, tier):
+    """Explicit input alphabet of the R obligations: enable high; every combination of queue.valid, one payload bit,
+    lrty_pending, finish, with one of the partner events: none, LGOOD s (all s), LCRD k (all k, and one out-of-range
+    index), LBAD, LRTY.  (The sequence_number field offered by the protocol layer is 5: it must be overwritten.)"""
+    n, sw = t.params["n"], t.params["sw"]
+    evs = [(0, 0, 0)] + [(1, LGOOD, s_) for s_ in range(1 << sw)] + [(1, LCRD, k) for k in range(min(n + 1, 16))]
+    evs += [(1, LBAD, 0), (1, LRTY, 0)]
+    ws = []
+    for new, cmd, sub in evs:
+        for qv in (0, 1):
+            for d0 in ((0, 1) if qv else (0,)):
+                for lr in (0, 1):
+                    for fin in (0, 1):
+                        ws.append(stub_word(t, qvalid=qv, dw0=d0, lrty=lr, new=new, cmd=cmd, sub=sub, finish=fin))
+    return "[" + "; ".join(str(w) for w in ws) + "]"
 
 
 # ---------------------------------------------------------------------------------------------
@@ -177,16 +248,109 @@ def stub_traces(target, rng, tier):
     return out
 
 
+def full_traces(target, rng, tier):
+    """Closed-loop partner scripts for the complete PacketTransmitter: link commands arrive as words on the sink
+    (LCSTART + command word; occasionally with a corrupted CRC-5 / replica, which the detector must ignore), headers
+    without payload are offered on the queue, source.ready stalls.  The partner acknowledges each header whose
+    transmission finished (or answers LBAD), frees buffers and re-advertises credits."""
+    from amaranth.sim import Simulator
+    from props.C37_hdrrx import lc_data, LC_START
+    p = target.params
+    n = p["n"]
+    N = 10 if tier == "quick" else 50
+    elab, ins, outs = target.build()
+    insig = dict(ins); outsig = dict(outs)
+    sim = Simulator(elab); sim.add_clock(1e-6, domain="ss")
+    holder = {}
+    QF = ["q_dw0", "q_dw1", "q_dw2", "q_crc16", "q_seq", "q_rsvd", "q_hub", "q_delayed", "q_deferred", "q_crc5"]
+    QW = dict(q_dw0=32, q_dw1=32, q_dw2=32, q_crc16=16, q_seq=3, q_rsvd=3, q_hub=3, q_delayed=1, q_deferred=1, q_crc5=5)
+
+    async def tb(ctx):
+        L = rng.randint(60, 300)
+        p_q = rng.choice([0.1, 0.4, 0.9]); p_rdy = rng.choice([0.5, 0.9, 1.0]); p_lbad = rng.choice([0.0, 0.1, 0.3])
+        p_odd = rng.choice([0.0, 0.03])
+        adv = rng.randrange(8)
+        up = False; free = n; nextcred = 0
+        cmds = []; words = []
+        tr = []
+        for t in range(L):
+            c = dict(enable=1, queue_valid=int(rng.random() < p_q), lrty_pending=int(rng.random() < 0.1),
+                     sink_valid=rng.choice([1, 1, 1, 0]), sink_data=0, sink_ctrl=0, source_ready=int(rng.random() < p_rdy))
+            for f in QF:
+                c[f] = rng.getrandbits(QW[f])
+            if c["q_dw0"] & 0xF == 8:            # no DATA headers (payload path is C36's)
+                c["q_dw0"] ^= 1
+            if not up and t >= 1:
+                cmds.append((t, LGOOD, adv)); up = True
+            elif up and free > 0 and rng.random() < 0.3:
+                cmds.append((t, LCRD, nextcred)); nextcred = (nextcred + 1) % n; free -= 1
+            elif up and rng.random() < 0.02:
+                cmds.append((t, rng.choice([LRTY, LGO_U]), rng.randrange(4)))
+            elif up and rng.random() < p_odd:
+                cmds.append((t, rng.choice([LGOOD, LCRD, LBAD]), rng.randrange(8)))
+            due = [x for x in cmds if x[0] <= t]
+            if due and not words:
+                x = due[0]; cmds.remove(x)
+                w = lc_data(x[1], x[2])
+                if rng.random() < 0.05:
+                    w ^= 1 << rng.randrange(32)                       # corrupted command word: must be ignored
+                words = [(1, LC_START, 15), (1, w, 0)]
+            if words and c["sink_valid"]:
+                v, d_, k = words.pop(0); c.update(sink_data=d_, sink_ctrl=k)
+            elif c["sink_valid"] and rng.random() < 0.03:
+                c.update(sink_data=rng.getrandbits(32), sink_ctrl=rng.choice([0, 15, rng.randrange(16)]))
+            for nm, v in c.items():
+                ctx.set(insig[nm], v)
+            if ctx.get(outsig["done"]):
+                seqn = ctx.get(outsig["h_seq"])
+                if rng.random() >= p_lbad:
+                    cmds.append((t + rng.randint(2, 8), LGOOD, seqn))
+                    if rng.random() < 0.9: free += 1
+                else:
+                    cmds.append((t + rng.randint(2, 8), LBAD, 0))
+            tr.append(c)
+            await ctx.tick("ss")
+        holder["trace"] = tr
+
+    sim.add_testbench(tb)
+    out = []
+    for k in range(N):
+        sim.reset(); sim.run()
+        out.append(holder["trace"])
+    return out
+
+
 def traces(target, rng, tier):
-    return stub_traces(target, rng, tier)
+    return stub_traces(target, rng, tier) if target.kind == "stub" else full_traces(target, rng, tier)
+
+
+W_SPEC = 8
 
 
 def obligations(targets, tier):
     obs = []
     for t in targets:
         a = margs(t)
-        obs.append(tie.corr(f"corr_{t.name}", t, mstep=f"ptx_mstep {a['full']}", m0=f"ptx_init {a['n']} {a['sw']}",
-                            describe="bookkeeping model vs simulator (stub detector / raw transmitter)"))
+        if t.kind == "stub":
+            alph = stub_alphabet(t, tier)
+            spec = f"(tp_monN {a['n']} {a['sw']} {a['sp']} {a['dp']} {W_SPEC} (pin_of {a['hh']}) (unpack_pout {a['hh']} {a['cw']}))"
+            if a["n"] <= 2:
+                obs.append(tie.rmon(f"sp_{t.name}", t, mon=spec, m0=f"(tp_enc {W_SPEC} tp_init)", alpha_bits=0, alphabet=alph,
+                                    fuel=1000000,
+                                    describe=f"PacketTransmitter bookkeeping (buffer_count={a['n']}, seq width {a['sw']}, stub detector / raw transmitter) "
+                                             f"satisfies the specification tp_mon on every trace over the explicit alphabet (enable high; queue.valid, payload bit, "
+                                             f"lrty_pending, finish free; partner events none / LGOOD s / LCRD k / LBAD / LRTY)"))
+            obs.append(tie.cmon(f"spec_{t.name}", t, mon=spec, m0=f"(tp_enc {W_SPEC} tp_init)",
+                                describe="specification tp_mon as oracle over closed-loop simulator traces"))
+            obs.append(tie.corr(f"corr_{t.name}", t, mstep=f"ptx_mstep {a['full']}", m0=f"ptx_init {a['n']} {a['sw']}",
+                                describe="bookkeeping model vs simulator (stub detector / raw transmitter), closed-loop partner scripts + arbitrary command events"))
+        else:
+            core = f"{a['n']} {a['pw']} {a['cw']} 3 {a['T']} {a['tw']}"
+            obs.append(tie.cmon(f"spec_{t.name}", t, mon=f"(ftp_monN {a['n']} 3 130 {a['cw']})", m0="(tp_enc 130 tp_init)",
+                                describe="specification tp_mon as oracle over simulator traces of the complete PacketTransmitter "
+                                         "(partner commands as decoded by the real LinkCommandDetector, transmissions of the real RawPacketTransmitter)"))
+            obs.append(tie.corr(f"corr_{t.name}", t, mstep=f"ftx_mstep {core}", m0=f"ftx_init {a['n']} 3",
+                                describe=f"complete PacketTransmitter(buffer_count={a['n']}) model (detector + header-path timing of the raw transmitter + bookkeeping) vs simulator"))
     return obs
 
 
